@@ -12,7 +12,9 @@ LEVEL = "exploration"
 SAN = True
 RULE = ("every sequence of <=3 (quick) / <=4 (thorough) lexemes from a %d-lexeme scanner alphabet, "
         "each scanned bare and after '{|\\n' (table mode), plus random strings of 1..5000 chars "
-        "over the same alphabet; each raw utoken.scan() result is checked by the tiling monitor; "
+        "over the same alphabet; each raw utoken.scan() result and each utoken.tokenize() result (CompatScanner) "
+        "is checked by the tiling monitor, and so is tokenize(replace_tags(text), uniquifier) over a tag alphabet "
+        "(depth 4 / 5); single tokens longer than 65535 characters; "
         "distinct = distinct input strings (hashed per shard; shards partition the enumeration by "
         "first lexeme), non-trivial = result has >=2 tokens or a non-text token")
 ASSUMPTIONS = [
